@@ -1,5 +1,6 @@
 SPECIFICATION Spec
 CONSTANTS
+  PairInit = FALSE
   MaxSteps = 2
 INVARIANT Inv_MissingIsolated
 INVARIANT Inv_SupplementalNeverCounted
